@@ -52,18 +52,18 @@ theorem wp_true {α} (m : PM α) (s : PState) : wp m s (fun _ _ => True) := fun 
 
 def upd (s : PState) (l : List Tok) (k : Nat) : PState := { s with toks := l, nextCmdId := k }
 
-@[simp] theorem upd_toks (s : PState) (l : List Tok) (k : Nat) : (upd s l k).toks = l := rfl
-@[simp] theorem upd_nextCmdId (s : PState) (l : List Tok) (k : Nat) : (upd s l k).nextCmdId = k := rfl
-@[simp] theorem upd_eof (s : PState) (l : List Tok) (k : Nat) : (upd s l k).eof = s.eof := rfl
+@[simp] theorem upd_toks (s : PState) (l : List Tok) (k : Nat) : (upd s l k).toks = l := id rfl
+@[simp] theorem upd_nextCmdId (s : PState) (l : List Tok) (k : Nat) : (upd s l k).nextCmdId = k := id rfl
+@[simp] theorem upd_eof (s : PState) (l : List Tok) (k : Nat) : (upd s l k).eof = s.eof := id rfl
 @[simp] theorem upd_constants (s : PState) (l : List Tok) (k : Nat) :
-    (upd s l k).constants = s.constants := rfl
+    (upd s l k).constants = s.constants := id rfl
 @[simp] theorem upd_breakStack (s : PState) (l : List Tok) (k : Nat) :
-    (upd s l k).breakStack = s.breakStack := rfl
+    (upd s l k).breakStack = s.breakStack := id rfl
 @[simp] theorem upd_continueStack (s : PState) (l : List Tok) (k : Nat) :
-    (upd s l k).continueStack = s.continueStack := rfl
-@[simp] theorem upd_nextSid (s : PState) (l : List Tok) (k : Nat) : (upd s l k).nextSid = s.nextSid := rfl
+    (upd s l k).continueStack = s.continueStack := id rfl
+@[simp] theorem upd_nextSid (s : PState) (l : List Tok) (k : Nat) : (upd s l k).nextSid = s.nextSid := id rfl
 @[simp] theorem upd_upd (s : PState) (l l' : List Tok) (k k' : Nat) :
-    upd (upd s l k) l' k' = upd s l' k' := rfl
+    upd (upd s l k) l' k' = upd s l' k' := id rfl
 theorem upd_self (s : PState) : upd s s.toks s.nextCmdId = s := rfl
 
 /-! ### primitives -/
